@@ -14,7 +14,9 @@ from . import core
 
 VERIF = os.path.dirname(os.path.dirname(os.path.abspath(__file__)))
 REPO = os.environ.get("VERIF_REPO", "/repo")
-CACHE = os.path.join(VERIF, ".cache")
+# the regression tools (tools/bank.py, selftest/run.py) may be run in several shards side by side: each shard then names its own cache
+# directory (facts, cargo target, lock) in VERIF_CACHE; the registered checks always use the default
+CACHE = os.environ.get("VERIF_CACHE") or os.path.join(VERIF, ".cache")
 DRIVER = os.path.join(VERIF, "tools", "mirfacts", "target", "debug", "mirfacts")
 RELANG = os.path.join(VERIF, "tools", "relang", "target", "release", "relang")
 EXPECTED_TARGETS = ("lib", "bin:crustabri", "bin:crustabri_iccma23")
